@@ -135,4 +135,194 @@ theorem trie_refines_spec (F : List Nat) (t0 : T) (hmk : T.mk? F = some t0) (ops
     rw [this]
     simpa [T.filter] using getAllIds_spec hRI hne
 
+
+/-! ### The code as written: unguarded tail loop of `erase(id, key)`, loop bound `ids_[0].size()` -/
+
+theorem lowerBound_snd_of_mem (id : Nat) (l : List Nat) (h : id ∈ l) : ∃ x post, (lowerBound id l).2 = x :: post := by
+  induction l with
+  | nil => cases h
+  | cons y ys ih =>
+    simp only [lowerBound]
+    split
+    · rename_i hlt
+      rcases List.mem_cons.mp h with rfl | h'
+      · omega
+      · exact ih h'
+    · exact ⟨y, ys, rfl⟩
+
+theorem eraseLBTail_of_mem (g : Bool) (id : Nat) (l : List Nat) (h : id ∈ l) : eraseLBTail g id l = eraseLBTail true id l := by
+  obtain ⟨x, post, hx⟩ := lowerBound_snd_of_mem id l h
+  unfold eraseLBTail
+  cases hlb : lowerBound id l with
+  | mk pre post' =>
+    rw [hlb] at hx
+    simp only at hx
+    subst hx
+    rfl
+
+theorem walkKeys_bounds (pf : PF) (lo : Nat) (h : KeysAsc lo pf) :
+    lo ≤ (walkKeys lo pf).2 ∧ (∀ i, (walkKeys lo pf).2 ≤ i → lookup pf i = none) ∧
+    ∀ vis ∈ (walkKeys lo pf).1, vis.1 < (walkKeys lo pf).2 := by
+  induction pf generalizing lo with
+  | nil => exact ⟨Nat.le_refl _, fun i _ => rfl, fun vis hv => by cases hv⟩
+  | cons kv r ih =>
+    obtain ⟨k, v⟩ := kv
+    simp only [KeysAsc] at h
+    obtain ⟨i1, i2, i3⟩ := ih (k + 1) h.2
+    have hmax : max lo k = k := Nat.max_eq_right h.1
+    simp only [walkKeys, hmax]
+    refine ⟨by omega, fun i hi => ?_, fun vis hv => ?_⟩
+    · simp only [lookup]; rw [if_neg (by omega)]; exact i2 i hi
+    · simp only [List.mem_append, List.mem_map, List.mem_cons, List.mem_range'_1] at hv
+      rcases hv with ⟨j, hj, rfl⟩ | rfl | hv
+      · simp only; omega
+      · simp only; omega
+      · exact i3 vis hv
+
+theorem fold_applyAt_other (F : List Nat) (g : List Nat → List Nat) (vs : List (Nat × Option Nat)) (ids : Ids)
+    (h : Shape F ids) (i : Nat) (hne : ∀ vis ∈ vs, vis.1 ≠ i) :
+    Shape F (vs.foldl (applyAt g) ids) ∧ ∀ s, cell (vs.foldl (applyAt g) ids) i s = cell ids i s := by
+  induction vs generalizing ids with
+  | nil => exact ⟨h, fun _ => rfl⟩
+  | cons v vs ih =>
+    simp only [List.foldl_cons]
+    obtain ⟨a, b⟩ := ih (applyAt g ids v) (shape_modCell h _ _ _) (fun vis hv => hne vis (List.mem_cons_of_mem _ hv))
+    refine ⟨a, fun s => ?_⟩
+    rw [b s]
+    simp only [applyAt, cell_modCell]
+    rw [if_neg (fun hh => hne v (List.mem_cons_self ..) hh.1)]
+
+/-- the unguarded tail loop never dereferences `end` when the id is in every visited unnamed list -/
+theorem fold_tail_unguarded (F : List Nat) (id : Nat) (m lo : Nat) (ids : Ids) (h : Shape F ids) (hm : lo + m ≤ F.length)
+    (hin : ∀ i, lo ≤ i → i < lo + m → id ∈ cell ids i (F.getD i 0)) :
+    ((List.range' lo m).map (fun i => (i, (none : Option Nat)))).foldl (eraseTailAt false id) (some ids) =
+    ((List.range' lo m).map (fun i => (i, (none : Option Nat)))).foldl (eraseTailAt true id) (some ids) := by
+  induction m generalizing lo ids with
+  | zero => rfl
+  | succ m ih =>
+    simp only [List.range'_succ, List.map_cons, List.foldl_cons]
+    have hlo : lo < F.length := by omega
+    have hslot : slotIdx ids lo none = F.getD lo 0 := by rw [slotIdx_eq h hlo]; rfl
+    have hstep : eraseTailAt false id (some ids) (lo, none) = eraseTailAt true id (some ids) (lo, none) := by
+      simp only [eraseTailAt, hslot]
+      rw [eraseLBTail_of_mem false id _ (hin lo (Nat.le_refl _) (by omega))]
+    rw [hstep, eraseTailAt_true]
+    apply ih (lo + 1) _ (shape_modCell h _ _ _) (by omega)
+    intro i hi1 hi2
+    simp only [cell_modCell]
+    rw [if_neg (fun hh => by omega)]
+    exact hin i (by omega) (by omega)
+
+/-- **`erase(id, key)` as written** (`tailGuard = false`), partial form: when the id *is stored* with
+    that key the unguarded tail loop behaves as the guarded one.
+    Full-strength statement (`RI_erasePF`, any id not stored as well) holds for `tailGuard = true`
+    only — see `erasePF_code_counterexample`. -/
+theorem erasePF_code_partial {t : T} {es : Spec} (h : RI t es) (id : Nat) {pf : PF} (hv : ValidPF t.F pf)
+    (hlive : (id, pf) ∈ es) : t.erasePF false id pf = t.erasePF true id pf := by
+  obtain ⟨b1, b2, b3⟩ := walkKeys_bounds pf 0 hv.1
+  have hnf : (walkKeys 0 pf).2 ≤ t.F.length ∨ t.F.length < (walkKeys 0 pf).2 := by omega
+  have hmain := fun i (hi : (walkKeys 0 pf).2 ≤ i) => fold_applyAt_other t.F (fun l => (eraseLB id l).1) (walkKeys 0 pf).1 t.ids h.shape i
+    (fun vis hvis => by have := b3 vis hvis; omega)
+  have hS1 : Shape t.F ((walkKeys 0 pf).1.foldl (eraseAt id) t.ids) := by
+    rw [eraseAt_eq]; exact (hmain _ (Nat.le_refl _)).1
+  simp only [T.erasePF, walkTail]
+  rcases hnf with hnf | hnf
+  · rw [fold_tail_unguarded t.F id (t.F.length - (walkKeys 0 pf).2) (walkKeys 0 pf).2 _ hS1 (by omega)]
+    intro i hi1 hi2
+    rw [eraseAt_eq, (hmain i hi1).2]
+    have hi : i < t.F.length := by omega
+    apply (h.mem i _ id hi (Nat.le_refl _)).mpr
+    exact ⟨pf, hlive, (slot_eq_unnamed hv i).mpr (b2 i hi1)⟩
+  · have : t.F.length - (walkKeys 0 pf).2 = 0 := by omega
+    rw [this]; rfl
+
+/-- witness: shape {2,2}, one entry `{0:0}` with id 0; `erase(1, {0:0})` (id 1 was never issued)
+    dereferences the end of factor 1's unnamed list -/
+theorem erasePF_code_counterexample :
+    ∃ t, T.mk? [2, 2] = some t ∧ ((t.insert [(0, 0)]).1.erasePF false 1 [(0, 0)]) = none := by
+  refine ⟨_, rfl, ?_⟩
+  decide
+
+/-- witness: shape {3,2} (first factor not the smallest), one entry: `size()` and `getAllIds()` with
+    the loop bound `ids_[0].size()` index the smaller factor's three lists up to 3 -/
+theorem size_code_counterexample :
+    ∃ t, T.mk? [3, 2] = some t ∧ (t.insert [(0, 1)]).1.size true = none ∧ (t.insert [(0, 1)]).1.getAllIds true = none := by
+  refine ⟨_, rfl, ?_, ?_⟩ <;> decide
+
+/-- the same states are fine with the repaired bounds / guard (test on literals) -/
+example : ∃ t, T.mk? [3, 2] = some t ∧ (t.insert [(0, 1)]).1.size false = some 1 ∧
+    ((t.insert [(0, 1)]).1.erasePF true 1 [(0, 1)]).isSome = true := by
+  refine ⟨_, rfl, ?_, ?_⟩ <;> decide
+
+/-- hypotheses of `trie_refines_spec` are satisfiable by a non-trivial history (insert, insert,
+    erase with key, stale erase with key, erase of a never-issued id) -/
+example : HistOK [3, 2] ([], 0) [.ins [(0, 1)], .ins [(0, 2), (1, 0)], .erp 0 [(0, 1)], .erp 0 [(0, 1)], .era 7, .ins []] := by
+  simp [HistOK, OpOK, specStep, specInsert, specErase, ValidPF, KeysAsc]
+
+
+/-! ### The model as the driver runs it: flags as extracted from the source *now*.
+    Each statement is the full-strength one exactly when the extracted flag is the repaired form;
+    otherwise it carries the hypothesis the code forces. -/
+
+theorem size_as_extracted {t : T} {es : Spec} (h : RI t es) (x : Nat) (xs : List Nat) (hF : t.F = x :: xs)
+    (hmin : Gen.C20.sizeFirstBound = true → ∀ y ∈ xs, x ≤ y) :
+    t.size Gen.C20.sizeFirstBound = some es.length := by
+  cases hfl : Gen.C20.sizeFirstBound with
+  | false => exact size_spec h (by rw [hF]; simp)
+  | true => exact (getAllIds_code_partial h x xs hF (hmin hfl)).2
+
+theorem getAllIds_as_extracted {t : T} {es : Spec} (h : RI t es) (x : Nat) (xs : List Nat) (hF : t.F = x :: xs)
+    (hmin : Gen.C20.allIdsFirstBound = true → ∀ y ∈ xs, x ≤ y) :
+    t.getAllIds Gen.C20.allIdsFirstBound = some (specIds es) := by
+  cases hfl : Gen.C20.allIdsFirstBound with
+  | false => exact getAllIds_spec h (by rw [hF]; simp)
+  | true => exact (getAllIds_code_partial h x xs hF (hmin hfl)).1
+
+theorem erasePF_as_extracted {t : T} {es : Spec} (h : RI t es) (id : Nat) {pf : PF} (hv : ValidPF t.F pf)
+    (hkey : ∀ e, (id, e) ∈ es → e = pf) (hlive : Gen.C20.eraseTailGuard = false → (id, pf) ∈ es) :
+    ∃ t', t.erasePF Gen.C20.eraseTailGuard id pf = some t' ∧ RI t' (specErase es id) := by
+  cases hfl : Gen.C20.eraseTailGuard with
+  | true => exact RI_erasePF h id hv hkey
+  | false => rw [erasePF_code_partial h id hv (hlive hfl)]; exact RI_erasePF h id hv hkey
+
+/-! ### FilterMap<T, Trie> / IndexMap -/
+
+/-- invariant of a FilterMap: the trie's ids are exactly the positions of the item container -/
+def FMInv (m : FM) (es : Spec) : Prop :=
+  RI m.trie es ∧ specIds es = List.range m.items.length ∧ m.trie.counter = m.items.length
+
+theorem FMInv_new {F : List Nat} {t : T} (h : T.mk? F = some t) : FMInv ⟨t, []⟩ [] := by
+  refine ⟨RI_mk h, rfl, ?_⟩
+  unfold T.mk? at h
+  split at h
+  · cases h
+  · cases h; rfl
+
+theorem FMInv_emplace {m : FM} {es : Spec} (h : FMInv m es) {pf : PF} (hv : ValidPF m.trie.F pf) (x : Nat) :
+    FMInv (m.emplace pf x) (specInsert es m.items.length pf) := by
+  obtain ⟨hRI, hids, hc⟩ := h
+  obtain ⟨_, _, hC', hR', _⟩ := insert_cells m.trie pf hRI.shape hv
+  have := RI_insert hRI hv
+  rw [hR', hc] at this
+  refine ⟨this, ?_, ?_⟩
+  · simp only [specIds, specInsert, List.map_append, List.map_cons, List.map_nil, FM.emplace, List.length_append,
+      List.length_cons, List.length_nil, List.range_succ]
+    rw [show List.map (fun x => x.fst) es = specIds es from rfl, hids]
+  · simp only [FM.emplace, hC', hc, List.length_append, List.length_cons, List.length_nil]
+
+/-- **FilterMap::filter**: iterating the returned IndexMap visits exactly the items emplaced with a key
+    compatible with the query, in emplacement order; `size()` is the number of emplaced items -/
+theorem filtermap_filter_spec {m : FM} {es : Spec} (h : FMInv m es) (fb : Bool) (q : PF) (hq : ValidQ m.trie.F q)
+    (hne : q ≠ []) :
+    m.filter fb q = some ((specFilter es q).map (fun id => m.items.getD id 0)) ∧
+    (∀ id ∈ specFilter es q, id < m.items.length) ∧ m.size = es.length := by
+  refine ⟨by simp only [FM.filter, filter_spec h.1 fb q hq hne, Option.map_some], ?_, ?_⟩
+  · intro id hid
+    obtain ⟨e, he, _⟩ := (mem_specFilter es q id).mp hid
+    have := h.1.lt id e he
+    rw [h.2.2] at this; exact this
+  · have := congrArg List.length h.2.1
+    simp only [specIds, List.length_map, List.length_range] at this
+    simp only [FM.size, this]
+
 end AITB.Trie
